@@ -166,6 +166,13 @@ def updAcc (g : List Value → Bool) (accStep : DmlAcc → Ver → DmlAcc) (acc 
 def updQ (g : List Value → Bool) (Q : Ver → List PendingTrig) (ts : List Ver) : List PendingTrig :=
   ts.flatMap (fun r => if g r.vals then Q r else [])
 
+theorem updQ_nil (g : List Value → Bool) (ts : List Ver) : updQ g (fun _ => ([] : List PendingTrig)) ts = [] := by
+  induction ts with
+  | nil => rfl
+  | cons r rest ih =>
+    show (if g r.vals then [] else []) ++ updQ _ _ rest = []
+    rw [ih]; simp
+
 /-- a table-specific invariant that rules out unique violations by the updated rows -/
 structure UpdInv (t : Table) (g : List Value → Bool) (f : List Value → List Value) (lv : View) (xid cid : Nat)
     (P : Ver → Prop) (Inv : List Ver → Prop) : Prop where
